@@ -257,6 +257,12 @@ def standard_check(mod, tier, seed, replay=None):
     # proofs
     pr = core.check_props(pid) if ok_make else {"ok": False, "obligations": 0, "discharged": 0,
                                                 "assumptions": [], "theorems": [], "log": make_log}
+    if tier == "thorough" and pr["ok"]:
+        ck = core.coqchk_props(pid)
+        notes["coqchk"] = {"ok": ck["ok"], "axioms": ck["axioms"] or ["<none>"]}
+        if not ck["ok"]:
+            pr["ok"] = False
+            pr["log"] = "coqchk: " + ck["log"]
     bad = core.forbidden_constructs()
     if bad:
         pr["ok"] = False
